@@ -21,4 +21,21 @@ META = {
     design_ref='DESIGN.md 6/C02',
     note='Bounded: <=2 outputs, <=3 messages in flight. The router-internal settlement step is unlogged (silent step of the trace spec).',
     technique='TLA+ protocol spec checked by TLC + trace validation of real Router runs over an exhaustive behaviour matrix'),
+ 'C08': dict(
+    text='The per-message protocol spec (RouterHandler.tla, model-checked) is extended in RouterRoutingTrace.tla with the routing rules: subscription '
+         'ownership is an injective map handler<->subscription, a message is passed only to the function of the handler owning the subscription it arrived '
+         'on, outputs go intact and in order to that handler\'s publisher object and topic, and the five context values are that handler\'s both inside '
+         'the function and on produced messages. Real Routers over all 1- and 2-handler configurations and random 3..6-handler ones are traced and the '
+         'traces validated by TLC',
+    design_ref='DESIGN.md 6/C08',
+    note='Scripted subscribers/publishers; publisher always accepts here (failure handling is C02). Bounded: 12 messages per run.',
+    technique='TLA+ trace validation of real multi-handler Router runs against the routing spec; configurations enumerated exhaustively for <=2 handlers'),
+ 'C09': dict(
+    text='MiddlewareOrder.tla models the registration list and fixes, at the start of a handler, its middleware nest (router-level plus own, registration order, '
+         'earliest outermost) and decorator chains; TLC checks NoForeign/InOrder/CompleteAtStart/FixedAtStart exhaustively for 2 handlers x 4 registrations x 2+2 '
+         'decorators. Every registration program up to the tier bound is executed on a real Router with recording middlewares/decorators and the recorded '
+         'enter/leave and decorator orders are validated against the spec by TLC',
+    design_ref='DESIGN.md 6/C09',
+    note='The godoc of AddPublisherDecorators contradicts the tested behaviour; the spec follows the property statement (first added acts first).',
+    technique='TLA+ spec of the registration state machine + TLC trace validation of enumerated registration programs run on the real Router'),
 }
